@@ -337,4 +337,26 @@ PROPS["C04"] = dict(
                "right is C01-C03's refinement, re-checked here by the queries after every restart.",
 )
 
+PROPS["C18"] = dict(
+    modules=["Hub.Props.C18"],
+    gens=["store-c18"],
+    rule=STORE_RULE + "over three datasets (a = main, b, c), interleaved with runs of one or two MultiSource jobs whose source is built by the scheduler's own parseSource from JSON: 1-2 declared "
+         "dependencies with 1-3 joins of mixed direction over predicates the histories use (and sometimes one the hub has never seen), dependencies registered through the transform's "
+         "track_queries (chains of hop/iHop, real goja), batch sizes 1,2,3,10, with and without latest-only; each run goes through the real IncrementalPipeline.sync (first run = full sync "
+         "with watermarks) into a collecting sink behind a recorder that separates dependency emissions from the main dataset's pages; three runs at the end of every history (towards the "
+         "token fixpoint); observed per run: the effective dependency list (declared + reversed hops + implicit, deduplicated), the set of entities emitted by dependency tracking, the main "
+         "dataset's changes in order, the stored token; the model follows the index scans, the specification the graph implied by the latest versions; non-trivial = at least 3 versions and a "
+         "run that emitted through a dependency",
+    trusted=STORE_TRUST + ["goja (track_queries is executed by the real engine)", "the order of emissions inside one dependency window (goroutine + channel) is canonicalised to a set"],
+    assumptions=["dependency and main datasets exist; no source writes during a run", "inverse joins inherit known finding D4 (several predicate/dataset combinations per referencing entity)"],
+    level_text="Proof: the ids that come out of processDependency's join loop are exactly those reachable from a changed entity along the declared joins, hop by hop, the first hop (when not inverse) "
+               "also through the graph as of the previous window (chainFrom_mem, window_complete); the chain depends on the relation only as a set, so whatever C03 establishes for one query "
+               "(scan = graph) carries over to chains of any length and direction mix (chain_congr); everything emitted has a live version in the main dataset and a dependency's token moves "
+               "exactly to the end of the window read from the old token (depsPass_single, depsPass_main_origin; windows tile the feed by C02.resume_exact); the builder keeps every declared "
+               "dependency, adds one per intermediate join dataset with the remaining joins, without duplicates (buildDeps_spec). Regenerated facts: dependencies before the main page and not "
+               "during a full sync, token advanced after the join loop, conditions of the back-dated query, lookup scoped to the main dataset, watermark of an empty change log. The real "
+               "MultiSource (built by parseSource, run by the pipeline) is compared with model and graph specification on generated histories. PARTIAL for inverse joins (D4).",
+    level_note="Trusted: Lean kernel, factgen, badger, goja. Run schedules 'until the tokens stop advancing' are sampled (three consecutive runs), the per-window statement is proved.",
+)
+
 NOT_YET = {}
